@@ -2,6 +2,7 @@ package rules
 
 import (
 	"fmt"
+	"regexp"
 	"strings"
 
 	"tcheck/ir"
@@ -1036,5 +1037,97 @@ func S14(rc *RC) {
 		} else if sites > 0 {
 			rc.S.Ok("S14", fi.Key, pos, "SetShape only on a pattern unlocked in this function")
 		}
+	}
+}
+
+// pathEnv propagates the assignments of locals along a path (terms in terms of parameters).
+func pathEnv(p ir.Path) map[string]string {
+	env := map[string]string{}
+	for _, st := range p.Steps {
+		switch st.Kind {
+		case "let", "store":
+			if ldIdent.FindString(st.Target) == st.Target {
+				env[st.Target] = substEnv(st.Value, env)
+			}
+		case "tuple":
+			if strings.Contains(st.Head, ") = (") {
+				parts := splitArgs(st.Value)
+				if len(parts) == len(st.Targets) {
+					var vals []string
+					for _, e := range parts {
+						vals = append(vals, substEnv(e, env))
+					}
+					for i, t := range st.Targets {
+						env[t] = vals[i]
+					}
+					continue
+				}
+			}
+			for _, t := range st.Targets {
+				delete(env, t)
+			}
+		}
+	}
+	return env
+}
+
+// S15: the public slice constructor stores what it is given. S(start), S(start, end),
+// S(start, end, step): an explicit end and an explicit step reach the slice unchanged (the
+// validators of rule S3 can only refuse what they are shown); the defaults are end = start+1,
+// step = 1, and step = 0 for the single-element form.
+func S15(rc *RC) {
+	rc.S.Declare("S15", "slice constructor: on every path of S the returned slice has start = the argument, end = opt[0] when given (start+1 otherwise) and step = opt[1] when given - an explicit argument is never replaced by a default", 1)
+	fi := anchor(rc, "S15", "tensor.S")
+	if fi == nil {
+		return
+	}
+	pos := rc.P.Pos(fi.Decl.Pos())
+	_, tree := sCanon(rc, fi)
+	paths, ok := ir.EnumPaths(tree, 500)
+	if !ok {
+		rc.S.Undec("S15", "tensor.S", pos, "too many paths")
+		return
+	}
+	lit := regexp.MustCompile(`^&tensor\.\w+\{start: (.*), end: (.*), step: (.*)\}$`)
+	has1 := ir.ParseBool("(len($opt) > 1)")
+	has0 := ir.ParseBool("(len($opt) > 0)")
+	var bad []string
+	n := 0
+	for _, p := range paths {
+		if p.Exit != "return" {
+			continue
+		}
+		env := pathEnv(p)
+		m := lit.FindStringSubmatch(substEnv(p.Ret, env))
+		if m == nil {
+			rc.S.Undec("S15", "tensor.S", pos, "returned value is not a slice literal with start/end/step: "+p.Ret)
+			return
+		}
+		n++
+		f := ir.PathFormulas(p)
+		g := strings.Join(p.Guards, " && ")
+		if m[1] != "$start" {
+			bad = append(bad, fmt.Sprintf("[%s] start = %s, want the argument", g, m[1]))
+		}
+		if ir.Implies(f, has0) && m[2] != "$opt[0]" {
+			bad = append(bad, fmt.Sprintf("[%s] an explicit end is replaced: end = %s", g, m[2]))
+		}
+		if ir.Implies(f, ir.BNot(has0)) && m[2] != "($start + 1)" {
+			bad = append(bad, fmt.Sprintf("[%s] default end = %s, want start+1", g, m[2]))
+		}
+		if ir.Implies(f, has1) && m[3] != "$opt[1]" {
+			bad = append(bad, fmt.Sprintf("[%s] an explicit step is replaced: step = %s (an invalid step must reach the validator, not be defaulted)", g, m[3]))
+		}
+		if !ir.Implies(f, has1) && !ir.Implies(f, ir.BNot(has1)) && !ir.Implies(f, ir.BConst(false)) {
+			// the path never tested whether a step was given
+			if m[3] != "$opt[1]" {
+				bad = append(bad, fmt.Sprintf("[%s] step = %s on a path that did not test whether a step was given", g, m[3]))
+			}
+		}
+	}
+	if len(bad) > 0 {
+		rc.S.Viol("S15", "tensor.S", pos, strings.Join(bad, "; ")).Sig = firstWords(bad)
+	} else {
+		rc.S.Ok("S15", "tensor.S", pos, fmt.Sprintf("%d paths store their arguments", n))
 	}
 }
